@@ -10,10 +10,11 @@ PROP = dict(
     assumptions=[
         "oracles of the model, evaluated by the real code on every case: the consensus witness verifies (VerifyWitness against the previous block's NextConsensus), every transaction is admitted by the per-block scratch pool, the block executes",
         "the header found by its hash is the tip or an older header (older_ok): stored header hashes are unique per height",
+        "the on-chain conflict record table answers the declarative question (C07: Admission/Conflicts.v conflict_records_exact, proved there)",
     ],
     modelled="the decision procedure and its frame are modelled and proved; signature verification, transaction admission (C07/C08) and execution are oracles; ECDSA and the VM are neither modelled nor verified here",
 )
 META = dict(
-    text="Proved in Coq for all states and block descriptions: a block is accepted iff it satisfies the conjunction the property lists (in the real order of checks), a rejected block leaves height, tip, state root and mempool unchanged and the header chain unchanged unless its header alone was valid (then exactly that header is appended), and the valid block is accepted afterwards. Soundness for the two clauses the pinned code does not enforce (consensus witness when the header is already recorded, F36; mutually exclusive transactions inside one block, F35) is proved for the repaired variant and refuted by witnesses for the code as it stands. Over several blocks (Node/AcceptPool.v): with the mempool refresh of storeBlock evaluated at the new height and keeping only what a fresh verification admits, every transaction of an accepted block is valid at the time of the offer whether the node held it in its mempool or not; refuted for a refresh against the old height and for a refresh that re-checks less (F46: Policy block list). Tied to the Go code by applying every single corruption of the valid next block at generated chain states to fresh replicas and comparing verdict, full database dump, mempool and heights, plus the stale-pool family (pool at H, intervening block, offer at H+2, pooled and not pooled). Partial: witness verification, transaction admission and execution are oracles.",
+    text="Proved in Coq for all states and block descriptions: a block is accepted iff it satisfies the conjunction the property lists (in the real order of checks), a rejected block leaves height, tip, state root and mempool unchanged and the header chain unchanged unless its header alone was valid (then exactly that header is appended), and the valid block is accepted afterwards. Soundness for the two clauses the pinned code does not enforce (consensus witness when the header is already recorded, F36; mutually exclusive transactions inside one block, F35) is proved for the repaired variant and refuted by witnesses for the code as it stands. Over several blocks (Node/AcceptPool.v): with the mempool refresh of storeBlock evaluated at the new height and keeping only what a fresh verification admits, every transaction of an accepted block is valid at the time of the offer whether the node held it in its mempool or not; refuted for a refresh against the old height and for a refresh that re-checks less (F46: Policy block list). Tied to the Go code by applying every single corruption of the valid next block at generated chain states to fresh replicas and comparing verdict, full database dump, mempool and heights, plus the stale-pool family (pool at H, intervening block, offer at H+2, pooled and not pooled). On-chain Conflicts (Node/AcceptConflicts.v over C07's record-table model): for every sequence of offered blocks an accepted block contains no transaction named in the Conflicts attribute of an earlier accepted transaction inside the MaxTraceableBlocks window that shares ANY signer with it (refuted for the variant that asks with the sender only); checked on the real code with 2-3-signer transactions, the conflicting signer in every position, signed by none (control), pooled and fresh, at distances 1, MTB and MTB+1. Partial: witness verification, transaction admission and execution are oracles.",
     note="Trusted: Coq kernel and vm_compute, the Go harness (corruptions, classification, dumps), orchestration. Oracles: VerifyWitness, scratch-pool admission, block execution (evaluated by the real code per case).",
 )
